@@ -2,3 +2,7 @@
 import VirtioVerif.Model.Proto
 import VirtioVerif.Model.Layout
 import VirtioVerif.Props.C06
+import VirtioVerif.Model.DropPlan
+import VirtioVerif.Model.Init
+import VirtioVerif.Props.C08
+import VirtioVerif.Props.C09
